@@ -279,14 +279,15 @@ def c14(ctx):
 HARNESS_FLAVOURS["crashmon"] = ("rel",)
 
 
-def crash_jobs(ctx, focus, ncases, batches, points_max, depth, nested_max, first=0, flavour="rel"):
+def crash_jobs(ctx, focus, ncases, batches, points_max, depth, nested_max, first=0, flavour="rel", writers=1):
     jobs = []
     for i in range(first, first + ncases):
         d = os.path.join(ctx.scratch, "cr-%s-%d" % (focus, i))
         jobs.append(hjob("crashmon", flavour,
                          ["--seed", ctx.seed, "--case", i, "--focus", focus, "--batches", batches,
-                          "--points-max", points_max, "--depth", depth, "--nested-max", nested_max, "--dir", d],
-                         "%s/%d" % (focus, i), timeout=3000))
+                          "--points-max", points_max, "--depth", depth, "--nested-max", nested_max,
+                          "--writers", writers, "--dir", d],
+                         "%s/%d/w%d" % (focus, i, writers), timeout=3000))
     return jobs
 
 
@@ -297,6 +298,8 @@ def crash_extras(agg):
         sync_batches=agg.n("sync_batches"), large_batches=agg.n("large_batches"),
         workload_flushes=agg.n("workload_level0_tables"), workload_compactions=agg.n("workload_compactions"),
         workload_reused_logs=agg.n("workload_reused_logs"),
+        group_commit_workloads=agg.n("group_commit_workloads"), group_commit_batches=agg.n("group_commit_batches"),
+        group_commit_merged_batches=agg.n("group_commit_merged_batches"),
         crash_points=agg.n("crash_points"), crash_points_nested=agg.n("crash_points_nested"),
         traces_explored_exhaustively=agg.n("traces_explored_exhaustively"),
         traces_thinned=agg.n("crash_points_thinned"),
@@ -317,7 +320,7 @@ def crash_extras(agg):
 
 CRASH_ASSUME = ["crash model exactly as stated in C02: per file a prefix >= its last fsync; directory operations in "
                 "issue order, at least up to the last fsync of any file or directory; O_TRUNC = new object",
-                "single foreground writer in this engine (group commit is exercised by the scheduler engine)"]
+                "single foreground writer, plus group-commit workloads with 3 native writers owning disjoint keys"]
 
 
 @register("C02")
@@ -326,9 +329,9 @@ def c02(ctx):
     if ctx.replay:
         return do_replay(ctx)
     if ctx.quick:
-        jobs = crash_jobs(ctx, "c02", 16, 120, 0, 1, 0)
+        jobs = crash_jobs(ctx, "c02", 12, 100, 0, 1, 0) + crash_jobs(ctx, "c02", 4, 90, 0, 1, 0, first=300, writers=3)
     else:
-        jobs = crash_jobs(ctx, "c02", 96, 300, 0, 2, 20)
+        jobs = crash_jobs(ctx, "c02", 96, 300, 0, 2, 20) + crash_jobs(ctx, "c02", 32, 240, 0, 1, 0, first=300, writers=3)
     agg = Agg().add(runner.run_jobs(jobs))
     return runner.finish(
         "C02", "fault_enumeration", ctx.tier, ctx.seed, ctx.t0, agg,
@@ -340,7 +343,7 @@ def c02(ctx):
         exhaustive=(agg.n("crash_points_thinned") == 0),
         floors=dict(images=(agg.n("images"), 2000), nontrivial=(agg.d("c02_image"), 500),
                     torn=(agg.n("torn_images"), 100), sync_batches=(agg.n("sync_batches"), 50),
-                    flushes=(agg.n("workload_level0_tables"), 10)),
+                    flushes=(agg.n("workload_level0_tables"), 10), merged=(agg.n("group_commit_merged_batches"), 10)),
         assumptions=CRASH_ASSUME)
 
 
@@ -816,3 +819,65 @@ def c19(ctx):
                     multi_table_and_wal=(n("cases_multi_table_and_wal"), 10), followups=(n("followups"), 50)),
         assumptions=["expected contents are derived with harness/refcodec.c from the files that survive",
                      "repair is given the same comparator/options the database was created with"])
+
+
+
+# ---------------------------------------------------------------------------
+# C20: lifecycle
+
+HARNESSES["lifemon"] = (["lifemon.c", "model.c", "dbh.c", "vh.c", "iomon.c"], build.WRAP_IO)
+HARNESS_FLAVOURS["lifemon"] = ("rel", "asan")
+
+
+def life_jobs(ctx, flavour, mode, first, count, shards):
+    jobs = []
+    per = max(1, count // shards)
+    for k in range(shards):
+        d = os.path.join(ctx.scratch, "life-%s-%s-%d" % (flavour, mode, first + k * per))
+        os.makedirs(d, exist_ok=True)
+        jobs.append(hjob("lifemon", flavour, ["--seed", ctx.seed, "--mode", mode, "--first", first + k * per, "--count", per,
+                                               "--dir", d], "%s/%s/%d" % (flavour, mode, k), timeout=3000))
+    return jobs
+
+
+@register("C20")
+def c20(ctx):
+    """Lifecycle operations are exclusive, complete and non-destructive (lock / backup / destroy / comparator / concurrent backup)."""
+    if ctx.replay:
+        return do_replay(ctx)
+    J = lambda *a: life_jobs(ctx, *a)
+    if ctx.quick:
+        jobs = (J("rel", "lock", 0, 320, 8) + J("rel", "backup", 0, 192, 8) + J("rel", "conc", 0, 128, 8) +
+                J("rel", "destroy", 0, 400, 2) + J("rel", "cmp", 0, 360, 2) +
+                J("asan", "lock", 5000, 16, 2) + J("asan", "backup", 5000, 8, 2) + J("asan", "destroy", 5000, 40, 1))
+    else:
+        jobs = (J("rel", "lock", 0, 12000, 16) + J("rel", "backup", 0, 8000, 32) + J("rel", "conc", 0, 5000, 32) +
+                J("rel", "destroy", 0, 20000, 8) + J("rel", "cmp", 0, 7200, 8) +
+                J("asan", "lock", 50000, 3000, 16) + J("asan", "backup", 50000, 1000, 16) + J("asan", "conc", 50000, 600, 16) +
+                J("asan", "destroy", 50000, 5000, 4) + J("asan", "cmp", 50000, 1800, 4))
+    agg = Agg().add(runner.run_jobs(jobs))
+    n = agg.n
+    pick = lambda prefix: {k[len(prefix):]: v for k, v in agg.counts.items() if k.startswith(prefix)}
+    extras = dict(cases=n("cases"), steps=n("steps"), opens=n("opens"), keys_compared=n("keys_compared"),
+                  refused_second_opens=pick("refused_second_open_"), failed_opens=pick("failed_open_"),
+                  opens_after_failed_open=n("opens_after_failed_open"),
+                  refused_copy_of_open_db=n("refused_copy_of_open_db"), refused_destroy_of_open_db=n("refused_destroy_of_open_db"),
+                  backups=n("backups"), backups_by_state=pick("backups_state_"),
+                  backups_with_memtable_and_several_levels=n("backups_mem_and_multilevel"),
+                  backups_with_background_thread_parked_in_manifest_update=n("backups_with_background_thread_parked_in_manifest_update"),
+                  failed_backups=pick("failed_backups_"), cross_write_checks=n("cross_write_checks"),
+                  foreign_entries_checked=n("foreign_entries_checked"), owned_entries_checked=n("owned_entries_checked"),
+                  comparator_pairs=n("comparator_pairs"), concurrent_writer_prefixes_checked=n("writer_prefixes_checked"),
+                  prefixes_with_in_flight_batches=n("prefixes_with_in_flight_batches"))
+    return runner.finish(
+        "C20", "exploration", ctx.tier, ctx.seed, ctx.t0, agg,
+        rule="lock: random open/close/second-open (same path, relative, decorated, symlink, forked child, another process)/"
+             "failed-open (wrong comparator, error_if_exists, missing, bad CURRENT, injected I/O error)/copy/destroy sequences; "
+             "backup: histories with backups in {memtable-only, imm pending, multi-level, during compaction (gated)} states, "
+             "copy == model at the call, cross-writes, injected failures leave no partial target; destroy: foreign files "
+             "byte-identical; cmp: every comparator pair refused without modifying files; conc: backups concurrent with 2-4 "
+             "writers equal a per-writer batch prefix inside the real-time window; distinct = (mode, db state class, operation)",
+        evaluations=n("cases"), distinct_nontrivial=agg.d("c20_state"), extras=extras,
+        floors=dict(cases=(n("cases"), 500), backups=(n("backups"), 200),
+                    inflight=(n("prefixes_with_in_flight_batches"), 1), mem_multi=(n("backups_mem_and_multilevel"), 1)),
+        assumptions=["ldb_close concurrent with other calls on the handle is outside the handle contract and not driven"])
